@@ -120,7 +120,15 @@ func expectedURI(override, nodeID, connAddr string) (hostport string, refuse boo
 			}
 			bare = true
 		} else if h != "" {
-			if ip := net.ParseIP(h); ip == nil || !ip.IsUnspecified() {
+			bareH := h
+			if i := strings.IndexByte(h, '%'); i >= 0 {
+				bareH = h[:i] // a zone says which link, not which address
+			}
+			ip := net.ParseIP(bareH)
+			if ip == nil && strings.Contains(h, ":") {
+				return "", true // colons, but no IPv6 address: neither an address nor a name
+			}
+			if ip == nil || !ip.IsUnspecified() {
 				host = h
 			}
 		}
